@@ -223,13 +223,7 @@ def out_plain(out):
 
 
 # ------------------------------------------------------------------------------------------- native side
-def native_ops(ts, diffs, thr=2, extra=()):
-    ops = [dict(op='init', network='regtest', threshold=thr, anchor=dict(id=1, difficulty=str(diffs[1])))]
-    for k, p in enumerate(ts.parents):
-        i = k + 2
-        ops.append(dict(op='push', id=i, parent=p, difficulty=str(diffs[i]), coinbase=[[7, 1000 + i]]))
-    ops.extend(extra)
-    return ops
+from checks.treelib import native_ops  # noqa: E402
 
 
 def model_diffs(ts, m):
@@ -295,7 +289,7 @@ def confirm(rep, cand, known):
         problems.append('main_chain')
     if ut.get('tip') != best or ut.get('tip_height') != len(path) - 1:
         problems.append('get_utxos')
-    exp_utxos = sorted(1000 + i for i in path if i != 1)
+    exp_utxos = sorted(1000 + i for i in path)
     if sorted(u['value'] for u in ut.get('utxos', [])) != exp_utxos:
         problems.append('get_utxos-set')
     if bal.get('balance') != sum(exp_utxos):
